@@ -160,7 +160,7 @@ def run(ctx):
                                         if not (s2["rv"]["op"].startswith("Add") and b.const_value(s2["rv"]["b"]) == 1):
                                             raw_uses += 1
                     if not plus1 or raw_uses:
-                        bad.append((name.rsplit("::", 1)[1], b.loc(i), plus1, raw_uses))
+                        bad.append((name.rsplit("::", 1)[-1], b.loc(i), plus1, raw_uses))
     ctx.floor("ring-size|inclusive-range-subtractions", subs, 1)
     ctx.ob("ring-size|end-minus-start-is-followed-by-plus-one", not bad,
            f"{subs} subtraction(s) of the inclusive range bounds, all turned into a slot count by + 1" if not bad else
